@@ -191,11 +191,19 @@ REGEX_SPECIAL = set(".^$*+?{}[]\\|()")
 
 
 # ---------------------------------------------------------------- tag wrappers
-def tag_fn_rows(rel: str, modname: str) -> tuple[list[dict], list[str]]:
+def tag_fn_rows(rel: str, modname: str) -> tuple[list[dict], list[str], list[str]]:
+    """-> (one row per PUBLIC top-level function, the module's `__all__`, the private top-level functions skipped).
+    Public = the name does not start with an underscore, or the module lists it in `__all__` (what the module
+    exports and what C19's run-time enumeration calls); a private helper (`def _names(): …`) is no tag function."""
     mod = parse(rel)
+    all_names, _ = str_collection(top_assign(mod, "__all__"), mod)
     rows = []
+    skipped: list[str] = []
     for node in mod.body:
         if not isinstance(node, (ast.FunctionDef, ast.AsyncFunctionDef)):
+            continue
+        if node.name.startswith("_") and node.name not in all_names:
+            skipped.append(node.name)
             continue
         row = {"mod": modname, "fn": node.name, "lit": "", "dflt": True, "shape": False}
         a = node.args
@@ -263,8 +271,34 @@ def tag_fn_rows(rel: str, modname: str) -> tuple[list[dict], list[str]]:
     if not tag_import_ok or rebound:
         for r in rows:
             r["shape"] = False
-    all_names, _ = str_collection(top_assign(mod, "__all__"), mod)
-    return rows, all_names
+    return rows, all_names, skipped
+
+
+def generator_tags_all() -> tuple[list[str], bool]:
+    """The `__all__` tuple inside the module text scripts/generate_tags.py writes for tags.py (`html_src = f'''…'''`):
+    the list of shortcut names the generator is told to export.  -> (names, located)"""
+    import re
+    try:
+        gen = parse("scripts/generate_tags.py")
+    except Exception:
+        return [], False
+    e = top_assign(gen, "html_src")
+    if isinstance(e, ast.JoinedStr):
+        text = "".join(v.value if isinstance(v, ast.Constant) and isinstance(v.value, str) else "\0" for v in e.values)
+    elif str_const(e) is not None:
+        text = str_const(e)
+    else:
+        return [], False
+    m = re.search(r"^__all__\s*=\s*([\(\[][^\)\]\0]*[\)\]])", text, re.M)
+    if not m:
+        return [], False
+    try:
+        v = ast.literal_eval(m.group(1))
+    except Exception:
+        return [], False
+    if not isinstance(v, (tuple, list)) or not all(isinstance(x, str) for x in v):
+        return [], False
+    return list(v), True
 
 
 def row_lean(r: dict) -> str:
@@ -522,8 +556,12 @@ def generate() -> dict:
             info["problems"].append(f"{nm}: not a display of string constants")
     all_ok = not info["problems"]
 
-    html_rows, tags_all = tag_fn_rows("htmltools/tags.py", "tags")
-    svg_rows, _ = tag_fn_rows("htmltools/svg.py", "svg")
+    html_rows, tags_all, html_skipped = tag_fn_rows("htmltools/tags.py", "tags")
+    svg_rows, _, svg_skipped = tag_fn_rows("htmltools/svg.py", "svg")
+    gen_all, gen_all_located = generator_tags_all()
+    for m, sk in (("tags.py", html_skipped), ("svg.py", svg_skipped)):
+        if sk:
+            notes.append(f"{m}: private top-level function(s) {', '.join(sk)} are not tag functions: no table row")
 
     # re-exports in __init__: `from .tags import (...)` names and __all__
     reexports: list[str] = []
@@ -608,6 +646,9 @@ def initAll : List Str := {llist([lstr(s) for s in init_all])}
 /-- `__all__` of htmltools/tags.py -/
 def tagsAll : List Str := {llist([lstr(s) for s in tags_all])}
 
+/-- the `__all__` that scripts/generate_tags.py writes into tags.py (`none`: not located in the script) -/
+def genTagsAll : Option (List Str) := {("some " + llist([lstr(s) for s in gen_all])) if gen_all_located else "none"}
+
 end HtmlVerif.Generated
 """
     consts_text, cproblems = consts_lean(core)
@@ -630,6 +671,7 @@ end HtmlVerif.Generated
         void=sorted(set(void)), noesc=sorted(set(noesc)), text_tbl=text_tbl, attr_tbl=attr_tbl,
         inline=sorted(set(inline)), versions=vers, html_rows=html_rows, svg_rows=svg_rows,
         reexports=reexports, init_all=init_all, tags_all=tags_all, all_ok=all_ok,
+        gen_tags_all=gen_all if gen_all_located else None,
         fingerprints=fingerprints(),
     )
     return info
